@@ -43,13 +43,14 @@ type paceCase struct {
 	ParamID   int
 	Password  string // "mrz" | "can" | "mrz-extdoc"
 	Dev       string // deviation of Pace.tla
+	Dev2      string // second deviation of the run ("" = none)
 	DevForm   string // concrete form of the altered value
 	ForceZero string // "" | "ka" (shared x-coordinate with a leading zero octet) | "map"
 	Seed      int64
 }
 
 func (k paceCase) String() string {
-	return fmt.Sprintf("%s id=%d pw=%s dev=%s/%s zero=%s", paceOidName(k.OID), k.ParamID, k.Password, k.Dev, k.DevForm, k.ForceZero)
+	return fmt.Sprintf("%s id=%d pw=%s dev=%s+%s/%s zero=%s", paceOidName(k.OID), k.ParamID, k.Password, k.Dev, k.Dev2, k.DevForm, k.ForceZero)
 }
 
 type paceOutcome struct {
@@ -162,7 +163,7 @@ func runPace(k paceCase) paceOutcome {
 	if cam {
 		o.CA = []perso.CASpec{{OID: chipsim.OIDCaEcdhAes128, ParamID: k.ParamID}}
 	}
-	if k.Dev == "cardsec-key" {
+	if k.Dev == "cardsec-key" || k.Dev2 == "cardsec-key" {
 		o.Personality = chipsim.PersonalityByName("cam-no-key")
 	}
 	var out paceOutcome
@@ -203,7 +204,10 @@ func runPace(k paceCase) paceOutcome {
 			core.Infra("C04: NewPasswordMrz: %v", err)
 		}
 	}
-	if k.Dev == "password" {
+	has := func(d string) bool {
+		return k.Dev == d || k.Dev2 == d || (d == "kakey-echo" || d == "token-echo") && (k.Dev == "reflect" || k.Dev2 == "reflect")
+	}
+	if has("password") {
 		if k.Password == "can" {
 			pass = password.NewPasswordCan("123457")
 		} else {
@@ -240,31 +244,37 @@ func runPace(k paceCase) paceOutcome {
 		}
 		tk := append([]byte{}, termKey...)
 		tt := append([]byte{}, termToken...)
-		return link.Action{Name: k.Dev + "@" + step, Respond: func(g []byte, l *link.Link) []byte {
-			switch {
-			case k.Dev == "sw-"+step:
+		return link.Action{Name: k.Dev + "+" + k.Dev2 + "@" + step, Respond: func(g []byte, l *link.Link) []byte {
+			if has("sw-" + step) {
 				return []byte{0x63, 0x00}
-			case k.Dev == "nonce" && step == "nonce":
-				return patch7C(g, 0x80, func(v []byte) []byte { v[rnd.Intn(len(v))] ^= 1 << uint(rnd.Intn(8)); return v })
-			case k.Dev == "mapkey" && step == "map":
-				return patch7C(g, 0x82, func(v []byte) []byte { return alterPoint(v, k.DevForm, k.ParamID, rnd) })
-			case k.Dev == "mapkey-echo" && step == "map":
-				return patch7C(g, 0x82, func(v []byte) []byte { return tk })
-			case k.Dev == "kakey" && step == "ka":
-				return patch7C(g, 0x84, func(v []byte) []byte { return alterPoint(v, k.DevForm, k.ParamID, rnd) })
-			case k.Dev == "kakey-echo" && step == "ka":
-				return patch7C(g, 0x84, func(v []byte) []byte { return tk })
-			case k.Dev == "reflect" && step == "ka":
-				return patch7C(g, 0x84, func(v []byte) []byte { return tk })
-			case k.Dev == "reflect" && step == "token":
+			}
+			if has("nonce") && step == "nonce" {
+				g = patch7C(g, 0x80, func(v []byte) []byte { v[rnd.Intn(len(v))] ^= 1 << uint(rnd.Intn(8)); return v })
+			}
+			if has("mapkey") && step == "map" {
+				g = patch7C(g, 0x82, func(v []byte) []byte { return alterPoint(v, k.DevForm, k.ParamID, rnd) })
+			}
+			if has("mapkey-echo") && step == "map" {
+				g = patch7C(g, 0x82, func(v []byte) []byte { return tk })
+			}
+			if has("kakey") && step == "ka" {
+				g = patch7C(g, 0x84, func(v []byte) []byte { return alterPoint(v, k.DevForm, k.ParamID, rnd) })
+			}
+			if has("kakey-echo") && step == "ka" {
+				g = patch7C(g, 0x84, func(v []byte) []byte { return tk })
+			}
+			if has("token-echo") && step == "token" {
 				// whatever the chip said (6300): the terminal's own token comes back as T_IC with 9000
 				return append(chipsim.EncodeTLV(0x7C, chipsim.EncodeTLV(0x86, tt)), 0x90, 0x00)
-			case k.Dev == "token" && step == "token":
-				return patch7C(g, 0x86, func(v []byte) []byte { v[rnd.Intn(len(v))] ^= 1 << uint(rnd.Intn(8)); return v })
-			case k.Dev == "ecad-absent" && step == "token":
-				return drop7C(g, 0x8A)
-			case k.Dev == "ecad" && step == "token":
-				return patch7C(g, 0x8A, func(v []byte) []byte { v[rnd.Intn(len(v))] ^= 1 << uint(rnd.Intn(8)); return v })
+			}
+			if has("token") && step == "token" {
+				g = patch7C(g, 0x86, func(v []byte) []byte { v[rnd.Intn(len(v))] ^= 1 << uint(rnd.Intn(8)); return v })
+			}
+			if has("ecad-absent") && step == "token" {
+				g = drop7C(g, 0x8A)
+			}
+			if has("ecad") && step == "token" {
+				g = patch7C(g, 0x8A, func(v []byte) []byte { v[rnd.Intn(len(v))] ^= 1 << uint(rnd.Intn(8)); return v })
 			}
 			return g
 		}}
@@ -309,8 +319,8 @@ func C04(c *core.Ctx) {
 	c.Assume("a PACEInfo with a supported OID but an RFU or absent parameter id is outside the selection clause")
 
 	type row struct {
-		mapping, dev, res, cam string
-		sm, chip                bool
+		mapping, dev, dev2, res, cam string
+		sm, chip                      bool
 	}
 	var rows []row
 	r := c.MustTLC(core.TLCOpts{Module: "MC_Pace", Cfg: "MC_Pace.cfg", Workers: 4})
@@ -323,10 +333,10 @@ func C04(c *core.Ctx) {
 			core.Infra("C04: %v", err)
 		}
 		t := v.([]any)
-		rows = append(rows, row{core.Str(t[1]), core.Str(t[2]), core.Str(t[3]), core.Str(t[4]), t[5].(bool), t[6].(bool)})
+		rows = append(rows, row{core.Str(t[1]), core.Str(t[2]), core.Str(t[3]), core.Str(t[4]), core.Str(t[5]), t[6].(bool), t[7].(bool)})
 	}
-	if len(rows) != 31 {
-		core.Infra("C04: expected 31 scenarios, got %d", len(rows))
+	if len(rows) != 224 {
+		core.Infra("C04: expected 224 scenarios (single deviations and pairs), got %d", len(rows))
 	}
 	// the design without the comparison of the two key agreement keys must show the reflection counterexample
 	if r2, err := c.TLC(core.TLCOpts{Module: "MC_Pace", Cfg: "MC_Pace_noecho.cfg", Workers: 2}); err != nil {
@@ -336,7 +346,7 @@ func C04(c *core.Ctx) {
 	}
 	spec := map[string]row{}
 	for _, rw := range rows {
-		spec[rw.mapping+"/"+rw.dev] = rw
+		spec[rw.mapping+"/"+rw.dev+"/"+rw.dev2] = rw
 	}
 
 	ids := []int{8, 9, 10, 11, 12, 13, 14, 15, 16, 17, 18}
@@ -367,6 +377,18 @@ func C04(c *core.Ctx) {
 		if rw.dev == "none" {
 			continue
 		}
+		if rw.dev2 != "none" {
+			// a pair of deviations: one run (three in the thorough tier)
+			oids := paceGmOIDs
+			if rw.mapping == "CAM" {
+				oids = paceCamOIDs
+			}
+			for k := 0; k < core.Pick(c, 1, 3); k++ {
+				di++
+				add(paceCase{OID: oids[di%len(oids)], ParamID: ids[(di*7)%len(ids)], Password: []string{"mrz", "can"}[di%2], Dev: rw.dev, Dev2: rw.dev2, DevForm: "otherpoint"})
+			}
+			continue
+		}
 		oids := paceGmOIDs
 		if rw.mapping == "CAM" {
 			oids = paceCamOIDs
@@ -392,7 +414,11 @@ func C04(c *core.Ctx) {
 		if strings.Contains(paceOidName(k.OID), "CAM") {
 			mapping = "CAM"
 		}
-		sp := spec[mapping+"/"+k.Dev]
+		d2 := k.Dev2
+		if d2 == "" {
+			d2 = "none"
+		}
+		sp := spec[mapping+"/"+k.Dev+"/"+d2]
 		c.Case(k.String()+fmt.Sprint(k.Seed), true)
 		rp := map[string]any{"case": k, "outcome": fmt.Sprintf("%+v", o), "spec": fmt.Sprintf("%+v", sp)}
 		if o.forcedZero {
@@ -406,6 +432,15 @@ func C04(c *core.Ctx) {
 					key = "C04:shared-secret-with-leading-zero-octet"
 				}
 				c.Violation(key, fmt.Sprintf("PACE with the right password against the conforming chip did not complete (%s): %+v", k, o), rp)
+			}
+		case k.Dev2 != "":
+			// pairs: what Pace.tla says about this pair (failure without session, or at least no chip authentication)
+			if sp.res == "failure" && (o.success || o.cam) {
+				c.Violation("C04:success-under-"+k.Dev+"+"+k.Dev2, fmt.Sprintf("PACE reported success under two coordinated deviations (%s): %+v", k, o), rp)
+			} else if !sp.sm && o.sm {
+				c.Violation("C04:session-installed-under-"+k.Dev+"+"+k.Dev2, fmt.Sprintf("PACE failed but a secure-messaging session is installed (%s): %+v", k, o), rp)
+			} else if sp.cam != "success" && o.cam {
+				c.Violation("C04:cam-success-with-"+k.Dev+"+"+k.Dev2, fmt.Sprintf("chip authentication mapping reported successful (%s): %+v", k, o), rp)
 			}
 		case k.Dev == "ecad" || k.Dev == "ecad-absent" || k.Dev == "cardsec-key":
 			if o.cam {
